@@ -180,7 +180,7 @@ def goTargets (prog : Program) : List String :=
 
 /-- thread entry points: the public methods and every `go` target -/
 def entries (prog : Program) (pub : List String) : List String :=
-  (pub ++ goTargets prog).eraseDups
+  pub ++ goTargets prog
 
 /-- every entry's inlined body obeys the locking discipline w.r.t. the mutable fields -/
 def disciplineOk (prog : Program) (pub ctors : List String) (fuel : Nat) : Bool :=
